@@ -126,14 +126,15 @@ public:
      */
     promise remove(ident id) {
         std::lock_guard _(_mx);
-        if (_scheduled.empty()) return {};
-        while (_scheduled[0]._ident == id) {
+        //the top can be removed from the heap at once (it also can be already emptied item)
+        while (!_scheduled.empty() && _scheduled[0]._ident == id) {
             auto p = std::move(_scheduled[0]._p);
             pop_item();
             if (p) return p;
         }
+        //an item somewhere in the heap is only emptied; skip items emptied before
         SchVector::iterator iter = std::find_if(_scheduled.begin(), _scheduled.end(),[&](const SchItem &x) {
-            return x._ident == id;
+            return x._ident == id && x._p;
         });
         if (iter == _scheduled.end()) return {};
         return std::move(iter->_p);
